@@ -12,7 +12,7 @@ RULE = ('documents drawn from the wfdoc grammar together with their syntax tree 
         'math directly after an item head, a group directly after an environment, or a comment inside an optional '
         'argument; distinct by source text')
 ASSUMPTIONS = [
-    'hostile verbatim bodies only where the skip list reaches (finding D6 open); elsewhere plain-text bodies',
+    'verbatim-like bodies are hostile wherever the generator places such an environment (D6 is repaired)',
     'how many leaves a text run is split into is not compared (adjacent text leaves are merged)',
 ]
 PROFILES = ['lists', 'defs', 'quick', 'twin', 'deep', 'lists', 'defs', 'quick']
